@@ -34,6 +34,25 @@ CHECKS = {
         "N <= 2-3 rows, 2 categories; 3-axis indexes built by the harness builder.",
         "7 (C13)",
     ),
+    "C16": (
+        "model_checking", "sched",
+        "stateless preemption-bounded exploration of ALL schedules of the pooled fill tasks of the real cube code (baton scheduler on sys.monitoring LINE/INSTRUCTION events, model ThreadPool conformance-checked against the real one); bit-for-bit comparison with the serial result",
+        "Every schedule with up to 1 preemption at line and at bytecode-instruction granularity (thorough: 2 at line granularity, pool sizes 1,2,3,4,16) of 3-4-task "
+        "harnesses on both cube types with 1-3 aggregates computed together is executed on the real code with fresh objects and compared bit-for-bit with serial evaluation; "
+        "the number of distinct task completion orders is reported to show the exploration is not vacuous.",
+        "Model pool replaces multiprocessing.pool.ThreadPool (chunking/FIFO/all-chunks-finish/first-recorded-failure; checked against the real pool on recording task sets); "
+        "true parallelism inside GIL-releasing sections is only sampled by the free-running supplement.",
+        "5",
+    ),
+    "C20": (
+        "model_checking", "sched",
+        "exhaustive fault enumeration over every callback invocation index (serial) and every subset of invocations x every schedule within the preemption bound (pooled), on the real cube code",
+        "Serial: every invocation index of the interrupt callback on cubes with 1,2,3,4,6 sub-cubes of both types; pooled: every subset of invocation ordinals crossed with every "
+        "schedule up to the preemption bound. calculate must raise one of the very objects raised, the callback must be consulted once per sub-cube, and re-evaluating the same "
+        "cube and aggregate objects afterwards must equal a fresh evaluation bit-for-bit.",
+        "Exception-derived interrupts only; model pool as in C16.",
+        "5.5",
+    ),
     "C18": (
         "exploration", "enum",
         "bounded-exhaustive enumeration of array cubes x fact/weight/missing patterns x probabilities; textbook per-cell statistics in plain Python as oracle",
